@@ -123,9 +123,14 @@ def oracle(case, obs):
     idx = {s: i for i, s in enumerate(ids)}
     period = case["period"]
     net = None
+    inf0 = inf
     for k, c in enumerate(obs["calls"]):
         if c["err"] is not None:
             continue
+        inf = inf0
+        if "net" in c:      # the network was changed under the same names: judge against the network of THIS call
+            inf = dict(inf0, M=c["net"]["M"], lims=c["net"]["lims"])
+            net = None
         if case["algo"] == "uncontrolled":
             want = {s["station"]: I.num(inf["maxp"][idx[s["station"]]]) for s in c["sessions"]}
             got = {s: v[0] for s, v in c["schedule"].items()}
@@ -157,7 +162,7 @@ def oracle(case, obs):
                 break
         # ---- allocation
         if net is None:
-            net = B.build_network(case)
+            net = B.network_from_matrix(case, inf) if "net" in c else B.build_network(case)
         n = len(ids)
 
         def feasible(x):
